@@ -747,8 +747,16 @@ pub fn run_case(c: &HeadCase, t: &mut Tape, st: &mut Stats) -> Result<Outcome, S
     // 1. canonical one-shot emission, validated against the model
     let mut canon_u = build_under(c)?;
     let mut big = vec![0u8; 1 << 18];
-    let n = canon_u.write(&mut big).map_err(|e| format!("one-shot head write failed: {:?}", e))?;
-    let canon = big[..n].to_vec();
+    // "one-shot" = ample buffer. A call emits whole lines; it need not emit all that would fit (a writer with a per-call line
+    // budget keeps every statement), so the ample buffer is offered until the head has ended with its empty line
+    let mut canon: Vec<u8> = vec![];
+    for _ in 0..200 {
+        let n = canon_u.write(&mut big).map_err(|e| format!("head write into an ample buffer failed: {:?}", e))?;
+        canon.extend_from_slice(&big[..n]);
+        if n == 0 || canon.ends_with(b"\r\n\r\n") || canon_u.ready() == Some(true) {
+            break;
+        }
+    }
     let parsed = check_head(c, &eff, &canon)?;
     check_body_matches(c, &eff, canon_u, &parsed)?;
     st.evals(1);
